@@ -660,10 +660,68 @@ def run_leaf_loop(ast):
                 return None
             if name == 'size':
                 return z3.Int('pq_size')
+            if name == 'empty':
+                return z3.Int('pq_size') == 0
             raise CheckerError(f'priority_queue::{name} not modelled')
 
         def push(ex_, it, node):
             m.pushes.append(dict(item=it, node=node, line=line_of(node), pc=list(ex_.pc), popped=st['popped'], i=st['i'], token=tok))
+
+        def while_rule(ex_, st_, env_):
+            """the pruning loop written as a while loop: one arbitrary iteration k (k completed iterations before it, none of which left the loop);
+            a variable that every iteration increments exactly once (no continue in the body) has the value init + k at the start of iteration k;
+            if the body ends in `if (C) break;`, iteration k >= 1 is reached only when C was false at the end of iteration k - 1"""
+            from contracts.parsing_h_helpers import assigned_names
+            inner = [c for c in st_['inner'] if c.get('kind')]
+            cond, wbody = inner[0], inner[-1]
+            k = ex_.fresh('k', I_)
+            ex_.assume(k >= 0)
+            st['i'] = k
+            info['inner_cond'] = cond
+
+            def walk(n):
+                yield n
+                for c in n.get('inner', []) or []:
+                    if isinstance(c, dict):
+                        yield from walk(c)
+            if any(n.get('kind') == 'ContinueStmt' for n in walk(wbody)):
+                raise CheckerError('continue inside the pruning loop written as a while loop')
+            mods = [n_ for n_ in assigned_names(wbody) if n_ in env_]
+            incs = {}
+            for n in walk(wbody):
+                if n.get('kind') in ('UnaryOperator', 'CompoundAssignOperator', 'BinaryOperator') and (n.get('opcode') in ('++', '--', '+=', '-=', '*=') or (n.get('kind') == 'BinaryOperator' and n.get('opcode') == '=')):
+                    tgt = strip_casts(n['inner'][0])
+                    if tgt.get('kind') == 'DeclRefExpr':
+                        incs.setdefault(tgt['referencedDecl']['name'], []).append(n.get('opcode'))
+            induction = [v for v in mods if incs.get(v) == ['++'] and z3.is_expr(env_[v])]
+            env2 = dict(env_)
+            prev = dict(env_)
+            for v in mods:
+                if v in induction:
+                    env2[v] = env_[v] + k
+                    prev[v] = env_[v] + (k - 1)
+                elif z3.is_expr(env_[v]):
+                    env2[v] = ex_.fresh(v, env_[v].sort())
+                    prev[v] = ex_.fresh(v + '_prev', env_[v].sort())
+            stmts = [c for c in wbody.get('inner', []) if c.get('kind')] if wbody.get('kind') == 'CompoundStmt' else [wbody]
+            last = stmts[-1] if stmts else None
+            if last is not None and last.get('kind') == 'IfStmt':
+                parts_ = [c for c in last['inner'] if c.get('kind')]
+                then = parts_[1] if len(parts_) > 1 else None
+                only_break = then is not None and (then.get('kind') == 'BreakStmt' or (then.get('kind') == 'CompoundStmt' and [c.get('kind') for c in then.get('inner', []) if c.get('kind')] == ['BreakStmt']))
+                if only_break and len(parts_) == 2:
+                    n_ob = len(ex_.obligations)
+                    try:
+                        c_prev = ex_.truth(ex_.ev(parts_[0], prev))
+                        ex_.assume(z3.Or(k == 0, z3.Not(c_prev)))
+                    except CheckerError:
+                        pass
+                    del ex_.obligations[n_ob:]          # the ghost evaluation of the previous iteration's guard raises no obligations of its own
+            ex_.assume(ex_.truth(ex_.ev(cond, env2)))
+            try:
+                ex_.run(wbody, env2)
+            except _Break:
+                st['broke'] = True
 
         def for_rule(ex_, st_, env_):
             # the pruning loop: for (i = 0; i < pruning_size && size(); i++) -- one arbitrary iteration; the i-th iteration pops the i-th best pair
@@ -683,7 +741,7 @@ def run_leaf_loop(ast):
             except _Continue:
                 pass
         m.mode = dict(pq=pq, push=push)
-        m.mode['for'] = for_rule
+        m.mode['for'] = lambda ex_, st_, env_: while_rule(ex_, st_, env_) if st_.get('kind') == 'WhileStmt' else for_rule(ex_, st_, env_)
         m.mode['agenda_top'] = lambda ex_: (_ for _ in ()).throw(CheckerError('agenda.top in the leaf loop'))
         m.mode['chart_update'] = None
         m.mode['chart_item'] = None
